@@ -86,6 +86,7 @@ class Fn:
         self.paths = cfg.get("paths", {})        # "A::B" -> lean term / constructor
         self.has_while = False
         self.nloop = 0
+        self.tail_var = None
         self.idents = cfg.get("idents", {})      # rust identifier -> lean term
         self.fields = cfg.get("fields", {})      # rust field -> lean field
         self.effects = cfg.get("effects", {})    # statement-level calls with side effects on the modelled world
@@ -297,7 +298,7 @@ class Fn:
             return tok
         if tok.startswith('"'):
             self.eat()
-            return f"{tok}.toList"
+            return tok if self.cfg.get("strings_plain") else f"{tok}.toList"
         if re.match(r"^\d", tok):
             self.eat()
             m = re.match(r"^(\d[\d_]*)(usize|u64|u32)?$", tok)
@@ -324,6 +325,24 @@ class Fn:
                 parts.append(self.eat())
             key = "::".join(parts)
             if len(parts) > 1:
+                if key in self.cfg.get("struct_ctors", {}) and self.peek() == "{":
+                    # `Enum::Variant { f: e, … }` → the model's constructor applied to the fields in ITS order (all must be given)
+                    ctor, order = self.cfg["struct_ctors"][key]
+                    self.eat("{")
+                    got = {}
+                    while self.peek() != "}":
+                        fld = self.eat()
+                        val = self.idents.get(fld, fld)
+                        if self.peek() == ":":
+                            self.eat()
+                            val = self.expr()
+                        got[fld] = val
+                        if self.peek() == ",":
+                            self.eat()
+                    self.eat("}")
+                    if sorted(got) != sorted(order):
+                        raise TranslateError(f"{key}: fields {sorted(got)} are not {sorted(order)}")
+                    return "(" + ctor + " " + " ".join(got[f_] for f_ in order) + ")"
                 if key not in self.paths:
                     raise TranslateError(f"path {key} is outside the translated subset")
                 v = self.paths[key]
@@ -358,6 +377,11 @@ class Fn:
     def pattern(self):
         """a `let` / `for` / `if let` pattern → (lean pattern, [(name, is_mut)])"""
         tok = self.peek()
+        for rust, lean_pat in self.cfg.get("patterns", {}).items():
+            tk = tokenize(rust)
+            if self.t[self.i:self.i + len(tk)] == tk:
+                self.i += len(tk)
+                return lean_pat, []
         if tok == "(":
             self.eat()
             subs = []
@@ -476,6 +500,28 @@ class Fn:
                     raise TranslateError("print macro used as a value")
                 self.i = k + 1                        # terminal output is not part of the modelled world
                 continue
+            bh = None
+            for h_ in self.cfg.get("block_heads", []):
+                tk = tokenize(h_["rust"])
+                if self.t[self.i:self.i + len(tk)] == tk:
+                    bh = (len(tk), h_)
+                    break
+            if bh:
+                # a construct whose HEAD is known token-for-token (a closure handed to a known function, a read loop):
+                # the head and the tail get their listed meaning, the statements in between are translated as usual
+                self.i += bh[0]
+                h_ = bh[1]
+                out += [pad + ln_ for ln_ in h_.get("before", "").split("\n") if ln_]
+                saved = self.tail_var
+                self.tail_var = h_.get("tail_var")
+                body = self.stmts(ind + h_.get("indent", 0), "}")
+                self.tail_var = saved
+                self.eat("}")
+                for c_ in tokenize(h_.get("close", "")):
+                    self.eat(c_)
+                out += body or ([" " * (ind + h_.get("indent", 0)) + "pure ()"] if h_.get("indent", 0) else [])
+                out += [pad + ln_ for ln_ in h_.get("after", "").split("\n") if ln_]
+                continue
             if hit:
                 self.i += hit[0]
                 if hit[1]:
@@ -566,29 +612,7 @@ class Fn:
             elif tok == "if":
                 out += self.if_(ind)
             elif tok == "match":
-                self.eat()
-                e = self.expr()
-                self.eat("{")
-                out.append(f"{pad}match {e} with")
-                while self.peek() != "}":
-                    pats = [self.pattern()[0]]
-                    while self.peek() == "|":
-                        self.eat()
-                        pats.append(self.pattern()[0])
-                    pats = [p_ for p_ in pats if not p_.startswith("∅")]      # alternatives that cannot occur in the modelled world
-                    self.eat("=>")
-                    out.append(f"{pad}| {' | '.join(pats)} =>")
-                    if self.peek() == "{":
-                        out += self.block(ind + 2)
-                    elif self.peek() == "return":
-                        self.eat()
-                        e = self.expr()
-                        out.append(f"{pad}  return {self.ret(e)}")
-                    else:
-                        raise TranslateError("match arm that is neither a block nor a return")
-                    if self.peek() == ",":
-                        self.eat()
-                self.eat("}")
+                out += self.match_(ind)
             elif self.is_effect_call():
                 out.append(pad + self.effect_stmt(question_ok=True))
             elif tok == "continue":
@@ -616,10 +640,53 @@ class Fn:
                     if op != "=":
                         rhs = f"{e} {op[0]} {rhs}"
                     out.append(pad + self.lvalue_assign(e, rhs))
+                elif self.peek() == end and self.tail_var:
+                    out.append(f"{pad}{self.tail_var} := {e}")
                 elif self.peek() == end:
                     out.append(f"{pad}return {self.ret(e)}")
                 else:
                     raise TranslateError(f"statement at … {' '.join(self.t[save:save+8])}")
+        return out
+
+    def match_(self, ind):
+        pad, out = " " * ind, []
+        self.eat("match")
+        e = None
+        for rust, (pre, val) in self.cfg.get("match_effects", {}).items():
+            tk = tokenize(rust)
+            if self.t[self.i:self.i + len(tk)] == tk:
+                # the scrutinee is a call with an effect: the effect first, then the case split on its outcome
+                self.i += len(tk)
+                out += [pad + ln_ for ln_ in pre.split("\n") if ln_]
+                e = val
+                break
+        if e is None:
+            e = self.expr(nostruct=True)
+        self.eat("{")
+        out.append(f"{pad}match {e} with")
+        while self.peek() != "}":
+            pats = [self.pattern()[0]]
+            while self.peek() == "|":
+                self.eat()
+                pats.append(self.pattern()[0])
+            pats = [p_ for p_ in pats if not p_.startswith("∅")]      # alternatives that cannot occur in the modelled world
+            self.eat("=>")
+            out.append(f"{pad}| {' | '.join(pats)} =>")
+            if self.peek() == "{":
+                out += self.block(ind + 2)
+            elif self.peek() == "return":
+                self.eat()
+                e = self.expr()
+                out.append(f"{pad}  return {self.ret(e)}")
+            elif self.peek() == "match":
+                out += self.match_(ind + 2)
+            elif self.tail_var:
+                out.append(f"{pad}  {self.tail_var} := {self.expr()}")
+            else:
+                raise TranslateError("match arm that is neither a block nor a return")
+            if self.peek() == ",":
+                self.eat()
+        self.eat("}")
         return out
 
     def ret(self, e):
@@ -832,6 +899,79 @@ FUNCS = [
          methods={"is_absolute": lambda r, a: f"({r}.head? == some '/')",
                   "components": lambda r, a: f"(components {r})",
                   "join": lambda r, a: f"({r} ++ '/' :: {a[0]})"}),
+    # ---- serve.rs handlers as the sequence of file-system calls they issue + the reply they write (labels of `HubConc.soloPut`)
+    dict(group="hubput", file="src/bin/copia/serve.rs", name="handle_put", sig=None,
+         lean="def handlePut (hashOf : List Chunk → Hash) (safe : Bool) (chunks : List Chunk) (len : Nat) (hash : Hash)\n"
+              "    (expected cur_dst : Option Hash) (commit_ok conflict_ok : Bool) : List Call × Copia.Hub.Reply Hash := Id.run do\n"
+              "  -- world: the file-system calls issued so far (the labels of `HubConc.soloPut`); `chunks` is what the input holds after the\n"
+              "  -- frame (lengths counted in chunks), `cur_dst` what `current_hash(&dst)` finds under the lock, `commit_ok` / `conflict_ok`\n"
+              "  -- whether the respective `rename` succeeds, `safe` whether `safe_join` accepts the path\n"
+              "  let mut calls : List Call := []",
+         subst=[('format!("commit failed: {e}")', '"commit failed"'), ('format!("conflict-copy failed: {e}")', '"conflict-copy failed"')],
+         idents={"n": "(1 : Nat)", "hasher": "hashed"},
+         paths={"Response::Error": "Copia.Hub.Reply.error", "Cas::Commit": "true", "Cas::Conflict": "false"},
+         struct_ctors={"Response::PutResult": ("Copia.Hub.Reply.putResult", ["committed", "current"])},
+         calls={"write_frame": lambda a: f"(calls, {a[1]})",
+                "cas_decide": lambda a: f"(Copia.Hub.casCommit {a[0]} {a[1]})"},
+         strings_plain=True,
+         methods={"into": lambda r, a: r,
+                  "finalize": lambda r, a: f"(hashOf {r})", "as_bytes": lambda r, a: r},
+         effects={"std::fs::remove_file": (False, lambda a: "calls := calls ++ [Call.discard]")},
+         patterns={"Ok(())": "true", "Err(e)": "false"},
+         match_effects={"std::fs::rename(&tmp, &dst)": ("calls := calls ++ [Call.commit]", "commit_ok"),
+                        "std::fs::rename(&tmp, target)": ("calls := calls ++ [Call.conflict]", "conflict_ok")},
+         block_heads=[dict(rust="loop { let n = limited.read(&mut buf)?; if n == 0 { break; }", before="for chunk in limited do", indent=2),
+                      dict(rust="let resp = with_commit_lock(lockdir, || {", close=")?;", tail_var="resp",
+                           before="calls := calls ++ [Call.lock]\nlet mut resp : Copia.Hub.Reply Hash := Copia.Hub.Reply.error \"\"",
+                           after="calls := calls ++ [Call.unlock]")],
+         verbatim=[("let Some(dst) = safe_join(root, path) else { std::io::copy(&mut r.take(len), &mut std::io::sink())?; "
+                    "return write_frame(w, &Response::Error(\"bad path\".into())); };",
+                    "if !safe then\n  return (calls, Copia.Hub.Reply.error \"bad path\")"),
+                   ("if let Some(p) = dst.parent() { std::fs::create_dir_all(p)?; }", ""),
+                   ("let tmp = tmp_of(&dst);", ""),
+                   ("let mut hasher = blake3::Hasher::new();", "let mut hashed : List Chunk := []"),
+                   ("let mut received: u64 = 0;", "let mut received : Nat := 0"),
+                   ("let mut tf = std::fs::File::create(&tmp)?;", "calls := calls ++ [Call.create]"),
+                   ("let mut limited = r.take(len);", "let limited := chunks.take len"),
+                   ("let mut buf = vec![0u8; 256 * 1024];", ""),
+                   ("hasher.update(&buf[..n]);", "hashed := hashed ++ [chunk]"),
+                   ("tf.write_all(&buf[..n])?;", "calls := calls ++ [Call.write]"),
+                   ("tf.sync_all()?;", ""),
+                   ("let current = current_hash(&dst);", "calls := calls ++ [Call.read]\nlet current := cur_dst"),
+                   # the conflict-copy name (translated on its own below, `ccPickGen`): no file-system MUTATION, no label
+                   ('let mut cn = dst.as_os_str().to_owned(); cn.push(format!(".conflict-{}", super::wire::short_hash(&hash))); '
+                    'let mut target = PathBuf::from(&cn); let mut n = 0u32; '
+                    'while std::fs::symlink_metadata(&target).is_ok() && current_hash(&target) != Some(hash) { '
+                    'n += 1; let mut alt = cn.clone(); alt.push(format!("-{n}")); target = PathBuf::from(alt); }', "")]),
+    dict(group="hubput", file="src/bin/copia/serve.rs", fn="handle_put", sig=None, option=True,
+         name="handle_put (the conflict-copy name: from `let mut cn = …` to the end of the `while`)",
+         slice=("let mut cn = dst.as_os_str().to_owned();", "target = PathBuf::from(alt);"), slice_close=1,
+         subst=[("std::fs::symlink_metadata(&target).is_ok()", "occupied_at(&target)")],
+         lean="def ccPickGen {H : Type} [DecidableEq H] (hashB : Copia.Hub.Bytes → H) (t : Copia.Hub.HTree) (p short : List Char) (hash : H)\n"
+              "    (fuel : Nat) : Option (List Char) := Id.run do\n"
+              "  -- world: the hub's tree `t`, read only (the loop runs under the commit lock); `p` is the request path, `short` the 12 hex of `hash`",
+         epilogue=["return (some target)"],
+         calls={"occupied_at": lambda a: f"(Copia.Hub.occupied t (Copia.Hub.osResolve {a[0]}))",
+                "current_hash": lambda a: f"((Copia.Hub.hget t (Copia.Hub.osResolve {a[0]})).map hashB)"},
+         paths={"PathBuf::from": "id"}, methods={"clone": lambda r, a: r},
+         verbatim=[("let mut cn = dst.as_os_str().to_owned();", "let mut cn := p"),
+                   ('cn.push(format!(".conflict-{}", super::wire::short_hash(&hash)));', 'cn := cn ++ ".conflict-".toList ++ short'),
+                   ('alt.push(format!("-{n}"));', "alt := alt ++ '-' :: Copia.Meta.decimal n")]),
+    dict(group="hubput", file="src/bin/copia/serve.rs", name="handle_delete", sig=None,
+         lean="def handleDelete (safe : Bool) (expected cur_dst : Option Hash) : List Call × Copia.Hub.Reply Hash := Id.run do\n"
+              "  let mut calls : List Call := []",
+         paths={"Response::Error": "Copia.Hub.Reply.error", "Cas::Commit": "true", "Cas::Conflict": "false"},
+         struct_ctors={"Response::DeleteResult": ("Copia.Hub.Reply.deleteResult", ["deleted", "current"])},
+         calls={"write_frame": lambda a: f"(calls, {a[1]})",
+                "cas_decide": lambda a: f"(Copia.Hub.casCommit {a[0]} {a[1]})"},
+         strings_plain=True, methods={"into": lambda r, a: r},
+         effects={"std::fs::remove_file": (False, lambda a: "calls := calls ++ [Call.remove]")},
+         block_heads=[dict(rust="let resp = with_commit_lock(lockdir, || {", close=")?;", tail_var="resp",
+                           before="calls := calls ++ [Call.lock]\nlet mut resp : Copia.Hub.Reply Hash := Copia.Hub.Reply.error \"\"",
+                           after="calls := calls ++ [Call.unlock]")],
+         verbatim=[("let Some(dst) = safe_join(root, path) else { return write_frame(w, &Response::Error(\"bad path\".into())); };",
+                    "if !safe then\n  return (calls, Copia.Hub.Reply.error \"bad path\")"),
+                   ("let current = current_hash(&dst);", "calls := calls ++ [Call.read]\nlet current := cur_dst")]),
     dict(group="hubsync", file="src/bin/copia/hub.rs", fn="hub_sync", sig=None,
          name="hub_sync (the push loop: from the counters to the end of the `for`)",
          slice=("let (mut sent, mut skipped, mut conflicts) = (0u64, 0u64, 0u64);", "hub kept a conflict-copy\");"), slice_close=2,
@@ -980,13 +1120,14 @@ GROUP_HEAD = {
               "open Copia.Reconcile (lookup dedupAdj)\nopen Copia.LoopSupport\nopen Copia.Bisync (cIns cDel)\nopen Copia.BidirSupport"),
     "hub": ("import Copia.Model.Hub", "open Copia.Hub (Comp components)"),
     "hubsync": ("import Copia.Model.HubSync", ""),
+    "hubput": ("import Copia.Model.HubTrace\nimport Copia.Model.Hub", "open Copia.HubConc (Call Chunk Hash)"),
     "deliver": ("import Copia.Model.Deliver", "open Copia.Deliver (DStep)"),
     "crash": ("import Copia.Model.Crash", "open Copia.Crash (Side FsStep)"),
     "delta": ("import Copia.Model.DeltaSupport",
               "open Copia.Delta Copia.DeltaSupport\nopen Copia.Checksum (Fast)"),
 }
 
-GROUPS = {"reconcile": "LoopsReconcile.lean", "plan": "LoopsPlan.lean", "bidir": "LoopsBidir.lean", "delta": "LoopsDelta.lean", "hub": "LoopsHub.lean", "hubsync": "LoopsHubSync.lean", "crash": "LoopsCrash.lean", "deliver": "LoopsDeliver.lean"}
+GROUPS = {"reconcile": "LoopsReconcile.lean", "plan": "LoopsPlan.lean", "bidir": "LoopsBidir.lean", "delta": "LoopsDelta.lean", "hub": "LoopsHub.lean", "hubsync": "LoopsHubSync.lean", "hubput": "LoopsHubPut.lean", "crash": "LoopsCrash.lean", "deliver": "LoopsDeliver.lean"}
 
 
 def translate(group):
